@@ -120,7 +120,9 @@ def sc_representation(d, name, n):
                 uniq = all(u0[i] < u0[pick_none] for i in unl if i != pick_none)
                 d.prove((not uniq) or pick_rows == pick_none, "feature_rows_same_selection_if_best_unique")
     # restriction to a candidate subset leaves the first-step utilities of the remaining candidates unchanged
-    if (independent or name == "Quire") and len(unl) >= 2:
+    # (first-step utilities of CoreSet / GreedySamplingX are distances to the labeled set resp. to all samples:
+    # they do not depend on the candidate set either)
+    if len(unl) >= 2:
         for sub in itertools.combinations(unl, len(unl) - 1):
             o_sub = _call(d, name, seed, X, y, list(sub))
             us = _row0(d, o_sub)
